@@ -6,6 +6,7 @@ import SignaloModel.Proofs.ClassifyProofs
 Property theorems for C09 (statements are printed by `#check`, axioms by `#check @Registry.slope_spec
 #check @Registry.peak_spec
 #check @Registry.slopes_registry_correct
+#check @Registry.peaks_registry_correct
 #print axioms`;
 `bin/check C09` re-elaborates this file on every run and audits the axiom lists).
 -/
@@ -21,3 +22,4 @@ open SignaloModel
 #print axioms Registry.slope_spec
 #print axioms Registry.peak_spec
 #print axioms Registry.slopes_registry_correct
+#print axioms Registry.peaks_registry_correct
